@@ -12,10 +12,11 @@ claimed = {
          "The initial register image of a wavefront is under contract in both modes against one shared statement (/verif/spec/wfinit.gspec): emu.ComputeUnit.initWfRegs and cu.WfDispatcherImpl.initRegisters write the same scalar registers "
          "(dispatch pointer, kernel-argument pointer, ceil-divided work-group counts, work-group ids) at the same offsets and give each of the 64 lanes the row-major coordinates of its flat id (separately in v0..v2, or packed into v0 for V5 code objects). "
          "The LDS unit runs a wavefront's instruction on the shared ALU only after binding the ALU to that wavefront's own work-group LDS, and the emulator's FLAT handlers access memory only for active lanes with the lane's own address and data. "
-         "The execution units share the emulator's ALU by construction (cu.Builder). Not under contract: load write-back, scalar loads through the memory system, cache flush before copies, and the whole-program equivalence itself."),
+         "The write-back of a returned vector load gives each recorded lane what the emulator's FLAT load handlers load from the same bytes (byte zero-/sign-extended, 16 bits zero-extended, or the register-count words), and a returned scalar load writes the response data to the recorded destination registers. "
+         "The execution units share the emulator's ALU by construction (cu.Builder). Not under contract: the lane bookkeeping of the coalescer (which bytes belong to which lane), cache flush before copies, and the whole-program equivalence itself."),
    note=(TB + "The emulator-side address formula is transcribed into the contract, not mechanically extracted (the emulator's state interface is modelled differently under C03). Whole-program equivalence of the two modes needs program-level reasoning outside this technique. "
          "Register initialisation: mathematical integers with overflow obligations; work-group sizes <= 1024 per dimension, flat ids <= 1024, grid sizes <= 0xFFFF0000 are preconditions; the packed V5 word is compared as the same uninterpreted bit expression on both sides. "
-         "One genuine defect repaired (timing mode did not pack work-item ids for V5 code objects); two known findings, demonstrated on the real dispatcher in the thorough tier: timing mode reserves scalar registers for the unsupported queue pointer and private segment size, emulation does not."),
+         "Two genuine defects repaired (timing mode did not pack work-item ids for V5 code objects; timing-mode write-back of flat_load_sbyte/flat_load_ushort wrote the wrong bytes); two known findings, demonstrated on the real dispatcher in the thorough tier: timing mode reserves scalar registers for the unsupported queue pointer and private segment size, emulation does not."),
    design="5 (C02)", technique="deductive verification: WP-style VC generation over go/ssa + SMT (return-site obligation)"),
  "C03": dict(
    text=("Every scalar ALU handler of both ALUs (SOP1, SOP2, SOPC, SOPK, SOPP branches; 116 handlers) and the integer vector handlers of both ALUs (VOP2 integer/logic/shift/carry, VOP1 mov/not/bfrev, "
@@ -103,10 +104,11 @@ claimed = {
    design="5 (C10)", technique="deductive verification: WP-style VC generation over go/ssa + SMT (queue view of the free list, loop invariant with page-size case split)"),
  "C14": dict(
    text=("The two wait guards of the timing scheduler are under contract for every wavefront state: evalSWaitCnt completes exactly when both outstanding-access counters are at or below the counts the instruction asks for, "
-         "and evalSEndPgm never completes (and changes nothing) while a vector or scalar memory access of the wavefront is outstanding; ScalarUnit.executeSMEMLoad splits a scalar load into fragments that tile the range and marks every fragment but the last as coalescable (the response handler decrements the counter for the unmarked one). EvaluateInternalInst removes a released work-group from both executing lists when a barrier is passed (site obligations; removeAllWfFromInternalExecuting keeps no wavefront of the released group). Completion messages, "
-         "the counter decrements on memory responses and the emulation-mode barrier are not yet under contract."),
+         "and evalSEndPgm never completes (and changes nothing) while a vector or scalar memory access of the wavefront is outstanding; ScalarUnit.executeSMEMLoad splits a scalar load into fragments that tile the range and marks every fragment but the last as coalescable (the response handler decrements the counter for the unmarked one). EvaluateInternalInst removes a released work-group from both executing lists when a barrier is passed (site obligations; removeAllWfFromInternalExecuting keeps no wavefront of the released group). "
+         "The three memory-response handlers of the compute unit (scalar load, vector load, vector store) match a response to the in-flight entry with the same request id, remove exactly one entry, and decrement the wavefront's outstanding counters by one exactly for the response of the last (not coalescable) request of an instruction (both counters for FLAT), and not otherwise. "
+         "Completion messages and the emulation-mode barrier are not yet under contract."),
    note=(TB + "The helpers the guards call after their decision (work-group scans, completion message, register reset, tracing) are declared external (frame-only). "
-         "One known finding (demonstrated on the real scheduler in the thorough tier): wavefronts held in the internally-executing list because the barrier buffer is full are released by another wavefront's s_endpgm without leaving that list, and then wait at the passed barrier forever."),
+         "One genuine defect repaired (shared with C02: sub-word FLAT load write-back). One known finding (demonstrated on the real scheduler in the thorough tier): wavefronts held in the internally-executing list because the barrier buffer is full are released by another wavefront's s_endpgm without leaving that list, and then wait at the passed barrier forever."),
    design="5 (C14)", technique="deductive verification: WP-style VC generation over go/ssa + SMT (pre/postconditions of the guard functions)"),
  "C15": dict(
    text=("Step contracts of the reorder buffer, for every state and message: the copies forwarded to the lower level carry the requester's address, size, PID, data and dirty mask unchanged and are addressed to the bottom unit "
